@@ -32,15 +32,16 @@ TECHNIQUE = ("runtime monitoring: exhaustive enumeration of the built-in standar
              "type library")
 CASES = {"quick": 420, "thorough": 12000}
 BUDGET = {"quick": 60, "thorough": 1500}
-FLOORS = {"quick": {"nontrivial": 200, "max_skip_frac": 0.1,
-                    "tags": {"el:line": 100, "el:trafo": 80, "el:trafo3w": 40, "el:fuse": 40, "el:line_dc": 8, "builtin": 100,
-                             "random_type": 150, "zero_seq_type": 30, "sc_1ph": 20, "tap_off_neutral": 50, "tap2": 10,
-                             "changed_compared": 60, "alpha_col": 15},
-                    "extras": {"builtin_types": 100, "row_params_checked": 3000, "calc_pairs": 900, "library_ops": 3000,
+FLOORS = {"quick": {"nontrivial": 210, "max_skip_frac": 0.1,
+                    "tags": {"el:line": 75, "el:trafo": 55, "el:trafo3w": 30, "el:fuse": 40, "el:line_dc": 20, "builtin": 106,
+                             "random_type": 150, "zero_seq_type": 50, "sc_1ph": 25, "tap_off_neutral": 50, "tap2": 12,
+                             "changed_compared": 90, "alpha_col": 12, "rename_with_elements": 150, "parameter_from_std_type": 120,
+                             "copy_keep": 90, "copy_overwrite": 90, "fuse_printed": 8},
+                    "extras": {"builtin_types": 106, "row_params_checked": 7000, "calc_pairs": 1900, "library_ops": 3800,
                                "changed_rows": 150}},
           "thorough": {"nontrivial": 5000, "max_skip_frac": 0.1,
-                       "tags": {"el:line": 2000, "el:trafo": 2000, "el:trafo3w": 1000, "el:fuse": 1000, "builtin": 106},
-                       "extras": {"builtin_types": 106, "calc_pairs": 20000}}}
+                       "tags": {"el:line": 2000, "el:trafo": 2000, "el:trafo3w": 1000, "el:fuse": 600, "builtin": 106, "sc_1ph": 700},
+                       "extras": {"builtin_types": 106, "calc_pairs": 50000}}}
 RULE = ("case k < 106: the k-th built-in standard type (sorted by element, name) - exhaustive; case k >= 106: random type of a "
         "random element kind with optional tap / second tap / zero-sequence / extra parameters. non-trivial = at least one "
         "row check and (for line/trafo/trafo3w) one converged twin calculation; distinct = digest of type data + scenario")
